@@ -96,7 +96,7 @@ func (s SuffrageProof) Prove(previousState base.State) error {
 		return e.Errorf("empty previous state for not genesis")
 	case s.st.Height() <= previousState.Height():
 		return e.Errorf("invalid previous state; higher height")
-	case !s.st.Previous().Equal(previousState.Hash()):
+	case s.st.Previous() == nil, !s.st.Previous().Equal(previousState.Hash()):
 		return e.Errorf("not previous state; hash does not match")
 	default:
 		if _, err := isaac.NewSuffrageFromState(previousState); err != nil {
